@@ -439,6 +439,7 @@ def run(repo: Repo, ctx) -> None:
     _r5(repo, ctx)
     _r6(repo, ctx)
     _r7(repo, ctx)
+    _r8(repo, ctx)
 
 
 def _r5(repo: Repo, ctx) -> None:
@@ -629,3 +630,116 @@ def _r7(repo: Repo, ctx) -> None:
     if n < 3:
         raise AnalysisError('C14.R7: per-element appends of the shape '
                             'describers not found')
+
+
+
+# reductions that map different inputs to one output: what goes through one
+# of them on its way into a content-derived id no longer tells descriptors
+# apart
+_LOSSY_CALLS = {'any', 'all', 'len', 'bool', 'set', 'frozenset', 'sorted',
+                'max', 'min', 'sum', 'hash', 'id', 'type', 'abs', 'round'}
+_LOSSY_METHODS = {'lower', 'upper', 'casefold', 'strip', 'lstrip', 'rstrip',
+                  'title', 'capitalize', 'swapcase', 'split', 'partition',
+                  'rpartition', 'removeprefix', 'removesuffix', 'encode',
+                  'isdigit', 'isalpha', 'startswith', 'endswith', 'count',
+                  'find', 'index'}
+
+
+def _lossy_in(e: ast.AST, names) -> str:
+    """text of a lossy reduction inside e that consumes one of `names`"""
+    for x in ast.walk(e):
+        if isinstance(x, ast.Call):
+            tgt = None
+            if isinstance(x.func, ast.Name) and x.func.id in _LOSSY_CALLS:
+                tgt = list(x.args)
+            elif isinstance(x.func, ast.Attribute) and \
+                    x.func.attr in _LOSSY_METHODS:
+                tgt = [x.func.value]
+            if tgt and any(isinstance(y, ast.Name) and y.id in names
+                           for t in tgt for y in ast.walk(t)):
+                return norm(x)[:60]
+        if isinstance(x, ast.Subscript) and isinstance(x.slice, ast.Slice) \
+                and any(isinstance(y, ast.Name) and y.id in names
+                        for y in ast.walk(x.value)):
+            return norm(x)[:60]
+    return ''
+
+
+def _r8(repo: Repo, ctx) -> None:
+    """C14.R8 the content-derived id consumes its inputs without losing
+    information.  (a) inside the id functions every parameter reaches the
+    hashed text directly -- str / repr / join / per-element rendering -- and
+    never through a reduction (any, len, set, lower, a slice ...) that maps
+    different inputs to one text; a parameter used only in tests (`if
+    names:`) besides is fine.  (b) what is appended to a list handed to an
+    id function is the value itself, not a reduction of it: two descriptors
+    whose bytes differ in that value would share the id."""
+    ctx.floor('C14.R8', 8)
+    m = repo.module(MOD)
+    idfns = {}
+    for f in repo._funcs_of(m):
+        if f.parent is None and any(
+                isinstance(c, ast.Call) and call_name(c) in (
+                    'uuidgen.uuid5', 'uuid5', 'uuid.uuid5')
+                for c in ast.walk(f.node)) and f.name.startswith('_get_'):
+            idfns[f.name] = f
+    if len(idfns) < 3:
+        raise AnalysisError(f'C14.R8: id functions not found ({sorted(idfns)})')
+    for name, f in sorted(idfns.items()):
+        ctx.saw(f)
+        params = [p for p in f.params()]
+        # locals derived from parameters keep the taint of the parameter
+        for p in params:
+            tainted = {p}
+            for _ in range(3):
+                for a in ast.walk(f.node):
+                    if isinstance(a, ast.Assign) and any(
+                            isinstance(y, ast.Name) and y.id in tainted
+                            for y in ast.walk(a.value)) and not _lossy_in(
+                                a.value, tainted):
+                        for t in a.targets:
+                            if isinstance(t, ast.Name):
+                                tainted.add(t.id)
+            bad = ''
+            for st in ast.walk(f.node):
+                if isinstance(st, (ast.Assign, ast.AugAssign, ast.Return,
+                                   ast.Expr)) and st.value is not None:
+                    bad = bad or _lossy_in(st.value, tainted)
+            ctx.ob('C14.R8', f'{name}:param={p}', not bad,
+                   f'{name} feeds `{p}` into the id through `{bad}`: '
+                   f'inputs that differ in what the reduction drops get the '
+                   f'same id although their descriptors differ (a client '
+                   f'caches the wrong shape under that id)', f.loc,
+                   sample=f'{p}: rendered without reduction')
+    # (b) lists handed to an id function
+    n = 0
+    for f in repo._funcs_of(m):
+        if f.parent is not None or f.name in idfns:
+            continue
+        lists = set()
+        for c in ast.walk(f.node):
+            if isinstance(c, ast.Call) and call_name(c) in idfns:
+                for a in list(c.args) + [k.value for k in c.keywords]:
+                    if isinstance(a, ast.Name):
+                        lists.add(a.id)
+        if not lists:
+            continue
+        for c in ast.walk(f.node):
+            if isinstance(c, ast.Call) and isinstance(c.func, ast.Attribute) \
+                    and c.func.attr in ('append', 'extend', 'insert') \
+                    and isinstance(c.func.value, ast.Name) \
+                    and c.func.value.id in lists and c.args:
+                val = c.args[-1]
+                allnames = {y.id for y in ast.walk(val)
+                            if isinstance(y, ast.Name)}
+                bad = _lossy_in(val, allnames)
+                n += 1
+                ctx.ob('C14.R8', f'{f.name}:{c.func.value.id}.append', not bad,
+                       f'{f.name} records `{bad}` in `{c.func.value.id}`, '
+                       f'which the id is computed from, instead of the value '
+                       f'written to the descriptor: descriptors that differ '
+                       f'only in what the reduction drops share an id',
+                       f'{f.module.rel()}:{c.lineno}',
+                       sample=norm(val)[:50])
+    if n < 4:
+        raise AnalysisError(f'C14.R8: only {n} id-input list stores found')
